@@ -36,6 +36,9 @@
   A schedule lets worker A take `k` micro-steps, runs worker B to completion (atomically), then finishes A.
   `k = 0` is "B first", `k` beyond A's length is "A first"; everything between is a read / CAS window of A.
 
+  Third direction (second half of the file): the signal handler against the StartStage worker (`startStep`, `raceStart`) while the
+  stage is still NOT_STARTED — claim commit, plan commit, and the merge of foreign context writes after a missed plan commit.
+
   `Variant.cas` is the code as it is.  `Variant.reread` is the signal handler with the buffering branch changed to
   re-read the stage right before it appends to the mailbox (so the CAS guards the second read, not the one the branch
   was decided on); it exists only to state what the version check protects (Props/C18 `reread_variant_loses_signal`).
@@ -47,10 +50,11 @@ open Stab
 
 inductive St where
   | running | suspended | finished
+  | notStarted      -- only in the StartStage race below: the stage row before its claim commit
   deriving DecidableEq, Repr
 
 def St.name : St → String
-  | .running => "RUNNING" | .suspended => "SUSPENDED" | .finished => "SUCCEEDED"
+  | .running => "RUNNING" | .suspended => "SUSPENDED" | .finished => "SUCCEEDED" | .notStarted => "NOT_STARTED"
 
 /-- durable state of the stage + ghost counters -/
 structure Stage where
@@ -62,11 +66,12 @@ structure Stage where
   resumed : Nat       -- ghost: signals delivered to the SUSPENDED stage (each pushes one RunTask)
   consumed : Nat      -- ghost: mailbox entries consumed by a suspending result (each pushes one RunTask)
   dropped : Nat       -- ghost: transient signals discarded
+  planned : Nat       -- ghost: plan commits of StartStage (each pushes the stage's StartTask)
   deriving DecidableEq, Repr
 
 /-- the stage is RUNNING, its first RunTask is pending (that one is the RunTask worker's message, not counted in `queued`) -/
 def init (version buffered : Nat) : Stage :=
-  { status := .running, version, buffered, queued := 0, execs := 0, resumed := 0, consumed := 0, dropped := 0 }
+  { status := .running, version, buffered, queued := 0, execs := 0, resumed := 0, consumed := 0, dropped := 0, planned := 1 }
 
 /-- the in-memory StageExecution a worker got from `retrieve_stage` -/
 structure Snap where
@@ -101,6 +106,7 @@ def innerRuns : Nat := 6
 
 inductive Variant where
   | cas | reread
+  | staleMailboxWins    -- StartStage's plan-conflict merge keeps its in-memory mailbox when the key already exists (see below)
   deriving DecidableEq, Repr
 
 /-! ### the signal worker -/
@@ -132,11 +138,11 @@ def sigStep (v : Variant) (persistent : Bool) (x : Stage × SigPc) : Stage × Si
       | none => (s, sigConflict f rb)
     else if persistent then
       match v with
-      | .cas =>
+      | .reread => (s, .reloaded f rb (load s))
+      | _ =>
         match cas s { guard := o.version, status := o.status, buffered := o.buffered + 1 } with
         | some s' => (s', .done .buffered rb)
         | none => (s, sigConflict f rb)
-      | .reread => (s, .reloaded f rb (load s))
     else ({ s with dropped := s.dropped + 1 }, .done .dropped rb)
   | (s, .reloaded f rb o) =>
     match cas s { guard := o.version, status := o.status, buffered := o.buffered + 1 } with
@@ -232,6 +238,96 @@ def race (v : Variant) (K : Nat) (sch : Sched) (s0 : Stage) : Result :=
     let a' := iter (runStep K) bound (b.1, a.2)
     { stage := a'.1, sig := b.2, run := a'.2 }
 
+/-! ### the StartStage worker (third direction of the race: a signal handled while the stage is being started)
+
+  handlers/start_stage/handler.py `_start_if_ready`, for a stage with predefined tasks, no mutex / choice group:
+    with_stage read -> status must be NOT_STARTED -> CLAIM commit `store_stage(stage, expected_phase="NOT_STARTED")`
+    (UPDATE … WHERE version = :version AND status = 'NOT_STARTED'; writes status RUNNING and the loaded context)
+      miss: re-read; row left NOT_STARTED -> duplicate claim, return; after `_CLAIM_RETRY_LIMIT` = 5 retries re-queue the
+            StartStage; otherwise claim again with the fresh object
+    -> `claimed_context = dict(stage.context)` -> plan in memory -> PLAN commit `store_stage(stage)` + mark + push StartTask
+      miss: re-read; row not RUNNING -> taken over, return; more than 5 attempts -> raise; otherwise MERGE: every key of the
+            fresh context that is new or differs from `claimed_context` is copied into the in-memory context, then
+            `claimed_context = dict(fresh.context)`, adopt the fresh version, commit again
+  The mailbox is the only context key another worker writes in this race, and signals only append to it, so the merge
+  amounts to "in-memory mailbox := re-read mailbox".  `Variant.staleMailboxWins` is the merge `if key not in stage.context`
+  (keep the in-memory value whenever the key already exists; the key exists iff a signal was buffered before the claim,
+  i.e. iff the in-memory mailbox is non-empty): it exists only to state what the merge protects.
+  The plan commit's StartTask -> RunTask chain is collapsed into `queued + 1` (one RunTask to deliver). -/
+
+def claimRetryLimit : Nat := 5
+
+inductive StartOut where
+  | started
+  | ignored        -- not NOT_STARTED when loaded
+  | duplicate      -- claim missed and the row had left NOT_STARTED
+  | requeued       -- claim still contended after the retry limit: StartStage pushed again
+  | takenOver      -- plan missed and the row had left RUNNING
+  | raised
+  deriving DecidableEq, Repr
+
+inductive StartPc where
+  | start
+  | loaded (retry rb : Nat) (o : Snap)                 -- next: the claim CAS with `o`
+  | claimMissed (retry rb : Nat)                       -- next: the re-read after a missed claim
+  | claimed (attempt rb : Nat) (o : Snap) (c : Nat)    -- `o` = in-memory object, `c` = mailbox in `claimed_context`; next: the plan CAS
+  | planMissed (attempt rb : Nat) (o : Snap) (c : Nat) -- next: the re-read + merge after a missed plan commit
+  | done (r : StartOut) (rb : Nat)
+  deriving DecidableEq, Repr
+
+def startStep (v : Variant) (x : Stage × StartPc) : Stage × StartPc :=
+  match x with
+  | (s, .start) =>
+    if s.status = .notStarted then (s, .loaded 0 0 (load s)) else (s, .done .ignored 0)
+  | (s, .loaded r rb o) =>
+    if s.version = o.version ∧ s.status = .notStarted then
+      ({ s with status := .running, buffered := o.buffered, version := s.version + 1 },
+       .claimed 0 rb { o with status := .running, version := o.version + 1 } o.buffered)
+    else (s, .claimMissed r (rb + 1))
+  | (s, .claimMissed r rb) =>
+    if s.status = .notStarted then
+      if claimRetryLimit ≤ r then (s, .done .requeued rb) else (s, .loaded (r + 1) rb (load s))
+    else (s, .done .duplicate rb)
+  | (s, .claimed a rb o c) =>
+    if s.version = o.version then
+      ({ s with status := o.status, buffered := o.buffered, version := s.version + 1, queued := s.queued + 1,
+                planned := s.planned + 1 }, .done .started rb)
+    else (s, .planMissed a (rb + 1) o c)
+  | (s, .planMissed a rb o c) =>
+    if s.status = .running then
+      if claimRetryLimit < a + 1 then (s, .done .raised rb)
+      else
+        let merged := match v with
+          | .staleMailboxWins => if o.buffered = 0 then s.buffered else o.buffered
+          | _ => if s.buffered = c then o.buffered else s.buffered
+        (s, .claimed (a + 1) rb { o with buffered := merged, version := s.version } s.buffered)
+    else (s, .done .takenOver rb)
+  | (s, .done r rb) => (s, .done r rb)
+
+/-- the stage row before StartStage: NOT_STARTED, `buffered` persistent signals already in its mailbox -/
+def initStart (version buffered : Nat) : Stage :=
+  { status := .notStarted, version, buffered, queued := 0, execs := 0, resumed := 0, consumed := 0, dropped := 0, planned := 0 }
+
+structure StartResult where
+  stage : Stage
+  sig : SigPc
+  start : StartPc
+  deriving DecidableEq, Repr
+
+/-- `Dir.runFirst`: A = the StartStage worker, B = the signal worker; `Dir.sigFirst`: A = the signal worker -/
+def raceStart (v : Variant) (sch : Sched) (s0 : Stage) : StartResult :=
+  match sch.dir with
+  | .sigFirst =>
+    let a := iter (sigStep v sch.persistent) sch.k (s0, sigInit)
+    let b := iter (startStep v) bound (a.1, .start)
+    let a' := iter (sigStep v sch.persistent) bound (b.1, a.2)
+    { stage := a'.1, sig := a'.2, start := b.2 }
+  | .runFirst =>
+    let a := iter (startStep v) sch.k (s0, .start)
+    let b := iter (sigStep v sch.persistent) bound (a.1, sigInit)
+    let a' := iter (startStep v) bound (b.1, a.2)
+    { stage := a'.1, sig := b.2, start := a'.2 }
+
 /-! ### after the race: further messages are handled one at a time -/
 
 /-- a SignalStage handled with nobody else running -/
@@ -253,6 +349,9 @@ def quiesce (K : Nat) : Nat → Stage → Stage
   `post` = signals (1 persistent / 0 transient) handled one at a time right after the race (they were pending during it);
   then pending RunTasks are delivered until the queue is empty.
   answer: `race st=… dv=… b=… q=… e=… sig=<out>.r<rollbacks> run=<out>.r<rollbacks> | fin st=… b=… q=… e=… wf=…`
+
+  `sigrace start <cas|staleMailboxWins> K=<n> dir=<start|sig> k=<n> p=<0|1> v=<version> b=<mailbox> post=<…>`: the StartStage race
+  (`dir=start`: A = StartStage worker); answer `race st=… dv=… b=… q=… e=… pl=<plan commits> sig=… start=<out>.r<rollbacks> | fin …`
 -/
 
 def SigOut.name : SigOut → String
@@ -270,6 +369,14 @@ def showRun : RunPc → String
   | .done r rb => s!"{r.name}.r{rb}"
   | _ => "unfinished"
 
+def StartOut.name : StartOut → String
+  | .started => "started" | .ignored => "ignored" | .duplicate => "duplicate" | .requeued => "requeued"
+  | .takenOver => "takenOver" | .raised => "raised"
+
+def showStart : StartPc → String
+  | .done r rb => s!"{r.name}.r{rb}"
+  | _ => "unfinished"
+
 def kvArg (key : String) (tok : String) : Option String :=
   if tok.startsWith (key ++ "=") then some (tok.drop (key.length + 1)).toString else none
 
@@ -283,8 +390,35 @@ def showFin (s : Stage) : String :=
   let wf := if s.status = .finished then "SUCCEEDED" else "RUNNING"
   s!"fin st={s.status.name} b={s.buffered} q={s.queued} e={s.execs} wf={wf}"
 
+def showStartRace (v0 : Nat) (r : StartResult) : String :=
+  s!"race st={r.stage.status.name} dv={r.stage.version - v0} b={r.stage.buffered} q={r.stage.queued} e={r.stage.execs} pl={r.stage.planned} sig={showSig r.sig} start={showStart r.start}"
+
+def driveStart (toks : List String) : String :=
+  match toks with
+  | [v, kk, d, k, p, ver, b, post] =>
+    let parsed : Option (Variant × Nat × Sched × Nat × Nat × List Bool) := do
+      let v ← (if v == "cas" then some Variant.cas else if v == "staleMailboxWins" then some Variant.staleMailboxWins else none)
+      let kk ← (kvArg "K" kk) >>= Parse.nat?
+      let d ← kvArg "dir" d
+      let d ← (if d == "sig" then some Dir.sigFirst else if d == "start" then some Dir.runFirst else none)
+      let k ← (kvArg "k" k) >>= Parse.nat?
+      let p ← (kvArg "p" p) >>= Parse.bool?
+      let ver ← (kvArg "v" ver) >>= Parse.nat?
+      let b ← (kvArg "b" b) >>= Parse.nat?
+      let post ← (kvArg "post" post) >>= parsePost
+      pure (v, kk, { dir := d, k := k, persistent := p }, ver, b, post)
+    match parsed with
+    | some (v, kk, sch, ver, b, post) =>
+      let r := raceStart v sch (initStart ver b)
+      let s1 := post.foldl (fun s p => sigAtomic v p s) r.stage
+      let fin := quiesce kk 64 s1
+      showStartRace ver r ++ " | " ++ showFin fin
+    | none => "bad-request"
+  | _ => "bad-request"
+
 def drive (rest : String) : String :=
   match rest.splitOn " " with
+  | "start" :: toks => driveStart toks
   | [v, kk, d, k, p, ver, b, post] =>
     let parsed : Option (Variant × Nat × Sched × Nat × Nat × List Bool) := do
       let v ← (if v == "cas" then some Variant.cas else if v == "reread" then some Variant.reread else none)
